@@ -130,7 +130,10 @@ fn main() {
     let extra_schedules = opts.tier.pick(8u64, 40); // beyond the 16 worker×quantum combinations
     let deadline = std::time::Instant::now() + std::time::Duration::from_secs(opts.tier.pick(95, 1500));
     let quanta = [Some(1usize), Some(2), Some(7), None];
-    let confluent_kinds = ["confluent", "typed_selective", "confluent", "pipeline", "typed_selective", "confluent", "request_reply", "typed_selective", "late_await"];
+    let confluent_kinds = [
+        "confluent", "typed_selective", "gap_select", "shared_await", "confluent", "pipeline", "typed_selective", "gap_select", "confluent", "request_reply", "shared_await",
+        "typed_selective", "late_await",
+    ];
     let mut total_runs = 0u64;
     let mut total_steps = 0u64;
     let mut done = 0u64;
